@@ -194,6 +194,52 @@ CHECKS = {
 NOT_YET = 'check not built yet in this session (planned, see DESIGN.md §4); no claim is made'
 
 
+# layers added after the first version of a check (appended to the level text); notes that replace the original note
+ADDED = {
+    'C01': ' Added: a modification-mapping layer (every subset of residues modified, the extra atom listed last, first, or with its '
+           'residue; particles created by the modification, attribute replacement, consecutive renumbering after a created particle), '
+           'reference atoms (incl. node key 0), weight normalisation, a mapping spanning reference atoms of two residues.',
+    'C02': ' Added: the same molecule object written again after its atom ids were changed in place.',
+    'C03': ' Added: shapes that differ only by a trailing interaction or by interleaved runs of one type; one NameMolType instance over two '
+           'systems; chains run through bin/martinize2 with -sep / -merge.',
+    'C04': ' Added: residues for which a mutation and/or modification was requested (shared with the C19 repair layer), two requests on one residue.',
+    'C05': ' Added: interaction metadata compared; removals conditioned on metadata; the documented order table as its own layer.',
+    'C06': ' Added: one matcher object answering several queries; a symmetry cache shared between matchers over differently coloured patterns; '
+           'spider graphs up to 10 nodes under several numberings.',
+    'C07': ' Added: CLI runs judged as the first action of a newly forked process (incl. -write-graph with unwaived warnings); a force-field '
+           'extension whose link warning has an independently known count (one per match).',
+    'C08': ' Added: every history up to depth 4 (thorough 5) over {log a record through the typed adapter or a plain logger, at WARNING / 35 / '
+           'ERROR / INFO; evaluate one of five allowance lists} on ONE CountingHandler, every evaluation compared with the formula on the '
+           'records logged so far.',
+    'C09': ' Added (props/c09_e2e.py): from mapping declarations (block mappings, modification mappings over one and two residues, mapping-file '
+           'text read in rounds with re-built force fields) through do_mapping + DoAverageBead; and RepairGraph -> AttachMass -> DoMapping -> '
+           'DoAverageBead on shipped charmm/martini3001 data with residues reduced to 1..n input atoms: particles sit at the weighted mean of '
+           'the constituents that were in the input and are undefined when none was.',
+    'C10': ' Added: unknown residues and radius-less atoms at every position of 4-atom systems; rectangles; sequences of calls in one process '
+           'with force fields defining the same block names differently and with a changing fudge factor.',
+    'C11': ' Added: a two-chain input with -merge (presentations and hash seeds).',
+    'C12': ' Added: citations in the abstract state; molecules and donors numbered from 0.',
+    'C13': ' Added: .mapping files (sequences and faults); two files read into one force field; [ edges ] in prefix and attribute spelling; '
+           '.map rounds in one process with re-built force fields of the same names.',
+    'C14': ' Added: unexplained atoms bonded to nothing; AnnotateMutMod -> RepairGraph -> CanonicalizeModifications on molecules whose chains '
+           'reuse residue numbers, with a request on one residue and an unexplained atom on another.',
+    'C15': ' Added: one ApplyRubberBand instance over every sequence of 2-3 molecules, with bond type and minimum separation given explicitly or '
+           'taken from each molecule\'s own force-field variables.',
+    'C16': ' Added: rewrite after in-place atom-id change; sequences of GRO files of different column widths / with and without velocities read '
+           'in one process.',
+    'C17': ' Added: molecules whose particles lack a residue name; every history up to depth 3 (thorough 4) over {annotate exact / one-element / '
+           'wrong length, iterate residues, four in-place edits of residue-defining attributes}, the last annotation compared with the same '
+           'annotation on a brand-new molecule of equal content.',
+    'C18': ' Added: atom-type entries; sequences of runs on the module-level pipeline object; contact-map FILES (five numbering schemes x contact '
+           'subsets x OV/rCSU flags x noise lines) through read_go_map.',
+    'C19': ' Added: two rounds of requests on a system, its copy and its subgraphs; extra atoms on residues no request names; mutation plus '
+           'terminus modification on one residue; two modification requests on one residue.',
+}
+NOTES = {
+    'C01': 'Residues have 2-3 atoms; modification mappings are single-residue in C01 (two-residue ones are exercised in C09).',
+}
+
+
 def main():
     props = [json.loads(l) for l in open(os.path.join(HERE, 'properties.jsonl'))]
     checks, not_applicable = [], []
@@ -203,6 +249,8 @@ def main():
             not_applicable.append({'property_id': pid, 'reason': NOT_YET})
             continue
         engine, technique, category, text, note, ref = CHECKS[pid]
+        text += ADDED.get(pid, '')
+        note = NOTES.get(pid, note)
         checks.append({
             'property_id': pid,
             'quick_cmd': './check %s --tier quick' % pid,
